@@ -108,6 +108,8 @@ func (f *FuncVC) mapLen(st *State, m *Val) string {
 	if f.pure == 0 {
 		t = f.sc.define("mlen", "Int", t)
 		f.fact(st, and(cmp(">=", t, "0"), cmp("<=", t, maxElems), implies(eq(m.T, "0"), eq(t, "0"))))
+	} else if !f.mentionsBound(t) && f.noFacts == 0 {
+		f.fact(st, and(cmp(">=", t, "0"), cmp("<=", t, maxElems), implies(eq(m.T, "0"), eq(t, "0"))))
 	}
 	return t
 }
